@@ -390,11 +390,11 @@ EXH7 = [0, 1, 2, 3, 5, 7, 8, 0x0f, 0x10, 0x2a, 0x3f, 0x40, 0x41, 0x55, 0x7e, 0x7
 
 def gen(rng, tier):
     q = tier == 'quick'
-    n_ab = 150 if q else 2000
-    n_a = 70 if q else 1000
-    per_amount = 2 if q else 16
-    nrand_amt = 4 if q else 24
-    n_abc = 40 if q else 400
+    n_ab = 150 if q else 8000
+    n_a = 70 if q else 4000
+    per_amount = 2 if q else 48
+    nrand_amt = 4 if q else 64
+    n_abc = 40 if q else 1600
     n_prim = 6 if q else 120
     n_bytes = 6 if q else 80
     n_radix = 2 if q else 30
